@@ -158,6 +158,7 @@ func Run(run *vh.Run) {
 	for _, cls := range []string{"msg-bit:rs", "sig-r-bit:rsv", "sig-s-bit:rs", "key-other:rsv", "key-negated:rs"} {
 		run.Floor("signature perturbation "+cls, run.Get("sig.rejected:"+cls), scale(q(1400, 70000)))
 	}
+	run.Floor("one mnemonic derived with two passphrases in a row", run.Get("hd.same-mnemonic-two-passphrases-in-a-row"), scale(q(300, 30000)))
 	run.Floor("keys recovered through `keys add --interactive` equal to the reference derivation", run.Get("cli_keys_add_interactive_ok"), scale(q(36, 550)))
 	run.Floor("key round trips through the keys export / import commands", run.Get("enc.roundtrip-ok:cli-export-import"), scale(q(60, 1100)))
 	run.Floor("encoding round trips", ke.encOK.Load(), scale(q(3000*13/2, 150000*13/2)))
